@@ -43,31 +43,31 @@ TEXTS = {
     ),
     "C04": dict(
         engine="mptsim", design_ref="DESIGN.md section 5 (C04)",
-        technique="deterministic simulation with crash injection: seeded multi-round histories on the real PNodeDB over a simulated RocksDB; every prefix of each save's write stream (and sampled power-loss prefixes) is materialised as a crashed disk, reopened, checked and re-executed",
+        technique="deterministic simulation with crash and I/O-error injection: seeded multi-round histories on the real PNodeDB over a simulated RocksDB; every prefix of each save's write stream (and sampled power-loss prefixes) is materialised as a crashed disk, reopened, checked and re-executed; in a separate configuration single writes of a save fail without a crash and the save is repeated (or the block given up)",
         level_text="Fault enumeration: within each sampled history the crash points of every save are enumerated exhaustively (every prefix of the write stream; batches atomic), each crashed disk is reopened with the real PNodeDB and checked for completeness of all earlier rounds and for re-execution giving the same root. Histories themselves are sampled.",
-        level_note="Trusted: the simulated RocksDB's durability model (atomic batches, prefix survival). Context cancellation of SaveChanges is not explored (not seed-determined).",
+        level_note="Trusted: the simulated RocksDB's durability model (atomic batches, prefix survival). Context cancellation of SaveChanges is explored under the task scheduler by C16, not here.",
     ),
     "C05": dict(
         engine="mptsim", design_ref="DESIGN.md section 5 (C05)",
-        technique="deterministic simulation with crash injection: dead-set vs. reachability invariant over seeded multi-round histories; PruneBelowVersion with a crash at every write index of its delete stream, reopen, re-run",
+        technique="deterministic simulation with crash and I/O-error injection: dead-set vs. reachability invariant over seeded multi-round histories (mid-round records, failed record writes, blocks given up and replaced); PruneBelowVersion with a crash at every write index of its delete stream, reopen, re-run",
         level_text="Fault enumeration: every write index of every prune's stream is a crash point (exhaustive per history), for every sampled prune version; the dead-set/reachability invariant is evaluated incrementally for all round pairs of each history.",
         level_note="Trusted: the harness's reachability walk and the simulated RocksDB's durability model.",
     ),
     "C09": dict(
         engine="wmptsim", design_ref="DESIGN.md section 6 (C09)",
-        technique=SIM + " (sorted map with total weight and cumulative-weight ownership; independent root hasher), histories x commit level x GC x reload; fault-free by nature",
+        technique=SIM + " (sorted map with total weight and cumulative-weight ownership; independent root hasher), histories x commit level x GC x reload; a separate configuration fails batch writes (commit / collector) once without a crash",
         level_text="Exploration: Weight() after every operation, root hash and the owner of every block after every commit, on the live trie and on a trie reloaded from storage, for tens of thousands to millions of seeded histories over key pools with shared prefixes of every length.",
         level_note="Trusted: harness/refwmpt (independent of core/util, sha3 only). Known finding listed: GC deletes stored nodes shared by two places of the trie (see known_findings.json).",
     ),
     "C11": dict(
         engine="wmptsim", design_ref="DESIGN.md section 6 (C11)",
-        technique="deterministic simulation with crash injection: seeded histories on a simulated StorageAdapter (and real pebble on StrictMem); reopen-from-(root,weight) vs. live observations after every commit and GC pass; every prefix of the storage write log materialised as a crashed store; power loss as a generated operation",
+        technique="deterministic simulation with crash injection: seeded histories on a simulated StorageAdapter (and real pebble on StrictMem); reopen-from-(root,weight) vs. live observations after every commit and GC pass; every prefix of the storage write log materialised as a crashed store; power loss as a generated operation; a separate configuration fails batch writes once and runs commits under a read outage, without a crash",
         level_text="Fault enumeration: within each sampled history every boundary between storage operations is a crash point (exhaustive), and the last surviving commit must be fully resolvable and observationally identical there; histories (incl. GC passes in any position and root reads at any time) are sampled.",
         level_note="Trusted: the simulated store's durability model. Known finding listed: shared stored nodes are deleted by GC (no reference counting).",
     ),
     "C13": dict(
         engine="wmptsim", design_ref="DESIGN.md section 6 (C13)",
-        technique=SIM + ": checkpoint/commit/rollback cycles with storage key-set accounting and reopen-vs-live comparison of the checkpoint state",
+        technique=SIM + ": checkpoint/commit/rollback cycles with storage key-set accounting and reopen-vs-live comparison of the checkpoint state; a separate configuration fails commit / collector / rollback batches once without a crash",
         level_text="Exploration over seeded checkpoint states, change batches (incl. same-value rewrites and delete/re-add of identical content), collapse levels, optional GC pass and both rollback entry points, with exact storage accounting (nothing of the checkpoint lost, nothing only the rolled-back commit wrote left).",
         level_note="Trusted: raw key-set snapshots of the simulated store. Known finding listed: shared stored nodes are deleted by GC.",
     ),
@@ -97,13 +97,13 @@ TEXTS = {
     ),
     "C08": dict(
         engine="cachesim+simrt", design_ref="DESIGN.md sections 4.5 and 7 (C08)",
-        technique="deterministic simulation of threads: seeded scheduler (random walk / PCT / run-until-blocked) over an instrumented copy of package statecache at map-access granularity, timing-independent value oracle + must-hit-after-commit oracle, same schedules under the race detector with a race-transparent hand-off; minimised explicit-schedule replays",
+        technique="deterministic simulation of threads: seeded scheduler (random walk / PCT / run-until-blocked / stalled task) over an instrumented copy of package statecache at map-access granularity, timing-independent value oracle + must-hit-after-commit oracle, same schedules under the race detector with a race-transparent hand-off; minimised explicit-schedule replays",
         level_text="Exploration over seeded schedules (tens of thousands quick, millions thorough) of committers and lock-free readers on a prepared block tree; distinct interleavings are counted. Not exhaustive; PCT and forced pre-emption strategies bias towards rare orders.",
         level_note="Trusted: the instrumenter (adds calls only) and simrt. Two builds: plain for value oracles, -race for the race clause.",
     ),
     "C16": dict(
         engine="mptsim+simrt", design_ref="DESIGN.md sections 4.5 and 5 (C16)",
-        technique="deterministic simulation of threads: seeded scheduler over an instrumented copy of the trie; recorded histories checked for linearizability with porcupine against a map model; final-root refinement; same schedules under the race detector; node-loss fault for lookups into absent nodes",
+        technique="deterministic simulation of threads: seeded scheduler over an instrumented copy of the trie (goroutines the trie starts itself are scheduled tasks, select case order is a scheduler choice, RWMutex writer preference modelled); recorded histories checked for linearizability with porcupine against a map model; final-root refinement; judged saves (what a save / abandoned save / save into a refusing store wrote); same schedules under the race detector; node-loss fault for lookups into absent nodes",
         level_text="Exploration over seeded schedules of 2-4 tasks x 2-6 operations on one trie (histories <= 40 operations so the linearizability search stays tractable; Unknown is inconclusive and never reported).",
         level_note="Trusted: porcupine, the map model, simrt and the instrumenter.",
     ),
